@@ -45,9 +45,19 @@ class PathCtx:
                 self.solver.add(c)
         self.obligations = []
         self.notes = []
+        self.n_quant = sum(1 for c in base_pc if has_quantifier(c))
+
+    def feasible_full(self, cond):
+        """Second opinion including the quantified facts (unknown counts as feasible)."""
+        s = z3.Solver()
+        s.set('timeout', 1500)
+        s.add(*self.pc)
+        return s.check(cond) != z3.unsat
 
     def add(self, cond):
         self.pc.append(cond)
+        if has_quantifier(cond):
+            self.n_quant += 1
         # quantified facts stay out of the feasibility solver (they make it answer `unknown`,
         # which would keep infeasible branches alive); they are part of every obligation's pc
         if not has_quantifier(cond):
@@ -114,6 +124,9 @@ class Explorer:
             return d
         ft = ctx.feasible(s)
         ff = ctx.feasible(z3.Not(s))
+        if ft and ff and ctx.n_quant:
+            ft = ctx.feasible_full(s)
+            ff = ctx.feasible_full(z3.Not(s)) if ft else True
         # forced branches are recorded too (alt=False) so that replays stay index-aligned
         # even if a solver timeout answers differently on a later replay
         if ft and not ff:
